@@ -127,4 +127,41 @@ theorem dropped_errors_as_modelled :
     PoolFacts.droppedErrors = ["TxPool.refreshGateNonce:batch.Put", "TxPool.MarkExecuted:batch.Put",
       "TxPool.MarkExecuted:batch.Write", "TxPool.MarkExecuted:batch.Write", "TxPool.UnMarkExecuted:executed.Delete"] := by decide
 
+/-- What `Model/PoolChain.lean` was transcribed from. -/
+def expectedChainCalls : List (String × List String × List String) := [
+  ("blockChain.AddBlockOnChain", ["consensusVerify", "addBlockOnChain"], []),
+  ("blockChain.CastBlock", ["transactionPool.PackForCast", "sort.Sort", "common.IsProposal020", "runTransactions", "runTransactions"], ["height <= Height"]),
+  ("blockChain.addBlockOnChain", ["HasBlockByHash", "verifyBlock", "insertBlock", "queryBlockHeaderByHash", "removeFromCommonAncestor", "addBlockOnChain", "QueryBlockHeaderByHeight", "chainPvGreatThanRemote", "removeFromCommonAncestor", "addBlockOnChain"], ["Hash == Hash", "PreHash == Hash", "TotalQN < TotalQN", "TotalQN > TotalQN"]),
+  ("blockChain.consensusVerify", ["hasPreBlock", "futureBlocks.Add", "queryBlockHeaderByHash"], []),
+  ("blockChain.insertBlock", ["markAddBlock", "saveBlockByHash", "saveBlockByHeight", "saveStates", "updateTxPool", "updateLastBlock", "successOnChainCallBack"], []),
+  ("blockChain.remove", ["markRemoveBlock", "hashDB.Delete", "heightDB.Delete", "queryBlockByHash", "transactionPool.UnMarkExecuted"], []),
+  ("blockChain.removeFromCommonAncestor", ["QueryBlockHeaderByHeight", "queryBlockByHash", "remove"], ["height > Height"]),
+  ("blockChain.runTransactions", ["Execute", "common.IsProposal020", "common.IsProposal023", "verifiedBlocks.Add"], []),
+  ("blockChain.successOnChainCallBack", ["futureBlocks.Get", "addBlockOnChain"], []),
+  ("blockChain.updateTxPool", ["transactionPool.MarkExecuted"], []),
+  ("blockChain.verifyBlock", ["verifiedBlocks.Contains", "queryBlockHeaderByHash", "futureBlocks.Add", "common.IsProposal008", "transactionPool.GetExecuted", "missTransaction", "common.IsProposal020", "checkStates"], []),
+  ("chainPvGreatThanRemote", ["Cmp"], ["compareValue > 0", "compareValue < 0", "hashBigCompareValue > 0"])
+]
+
+/-- `VMExecutor.Execute` as read for `CBlock.receipts`: `continue` (Type 0), `break` (casting time-out), evicted + `continue`
+(not addable, proposal 018), evicted (failed, before 018), then transaction and receipt appended together. -/
+def expectedExecuteShape : List String := [
+  "continue",
+  "break",
+  "append:evictedTxs",
+  "continue",
+  "append:evictedTxs",
+  "append:transactions",
+  "append:receipts"
+]
+
+/-- The chain's side as modelled: the order of the calls that reach the pool or decide the fork choice in
+`AddBlockOnChain`, `consensusVerify`, `addBlockOnChain`, `verifyBlock` (proposal-008 test before execution),
+`insertBlock` (`updateTxPool` before the head moves), `remove`, `removeFromCommonAncestor`, `CastBlock`,
+`runTransactions`, `successOnChainCallBack`, and the comparison operators of the fork choice. -/
+theorem chain_calls_as_modelled : PoolFacts.chainCalls = expectedChainCalls := by decide
+
+/-- A receipt is appended exactly where its transaction is: `receipts_covered` (Props/C17F) rests on this shape. -/
+theorem execute_shape_as_modelled : PoolFacts.executeShape = expectedExecuteShape := by decide
+
 end Rangers.Props.C17B
